@@ -62,4 +62,29 @@ theorem composite_can_be_stale :
     ∃ (p : Pass) (c : Cond) (s s' : Store), isRequired p c s ≠ isRequired p c s' :=
   ⟨⟨fun _ => true, fun _ => 0⟩, .or (.leaf 0 true) (.leaf 1 true), fun _ => 0, fun _ => 7, by decide⟩
 
+
+/-- all leaves of the condition are of classes whose `evaluate()` never assigns `_backtrack` -/
+def allNever : Cond → Bool
+  | .leaf _ a => !a
+  | .and a b => allNever a && allNever b
+  | .or a b => allNever a && allNever b
+
+/-- a composite over never-assigning leaves (the feasibility controls of `sim/core.py`: `AndCondition` of
+`FunctionCondition` / `ValueCondition`) never writes the store: its `backtrack` is the constructors' constant -/
+theorem allNever_untouched (p : Pass) (c : Cond) (h : allNever c = true) (s : Store) : (eval p c s).2 = s := by
+  induction c generalizing s with
+  | leaf i a => cases a <;> simp_all [allNever, eval]
+  | and a b iha ihb =>
+    simp only [allNever, Bool.and_eq_true] at h
+    simp only [eval]
+    split
+    · rw [ihb h.2, iha h.1]
+    · exact iha h.1 s
+  | or a b iha ihb =>
+    simp only [allNever, Bool.and_eq_true] at h
+    simp only [eval]
+    split
+    · exact iha h.1 s
+    · rw [ihb h.2, iha h.1]
+
 end Wntr.Frame.Backtrack
